@@ -141,6 +141,32 @@ def run_tlc(module_dir, tla, cfg, workers=None, env=None, timeout=1800, extra=()
         shutil.rmtree(tmp, ignore_errors=True)
 
 
+def spec_cache(module_dir, tag, producer):
+    """Enumerations that depend on the specification only (never on /repo) are cached under .build/cache,
+    keyed by the content of the spec directory; `./check --setup` warms them."""
+    h = hashlib.sha1()
+    d = os.path.join(SPECS, module_dir)
+    for f in sorted(os.listdir(d)):
+        if f.endswith(".tla"):
+            h.update(f.encode())
+            h.update(open(os.path.join(d, f), "rb").read())
+    h.update(tag.encode())
+    cdir = os.path.join(BUILD, "cache")
+    os.makedirs(cdir, exist_ok=True)
+    path = os.path.join(cdir, "%s-%s.json" % (module_dir, h.hexdigest()[:16]))
+    if os.path.exists(path):
+        try:
+            return json.load(open(path))
+        except Exception:
+            os.remove(path)
+    val = producer()
+    tmp = path + ".%d.tmp" % os.getpid()
+    with open(tmp, "w") as f:
+        json.dump(val, f)
+    os.replace(tmp, path)
+    return val
+
+
 def tlc_must_pass(res, what):
     if not res.ok:
         raise Infra("TLC did not complete cleanly on %s (rc=%d)\n%s" % (what, res.rc, res.out[-4000:]))
